@@ -675,6 +675,8 @@ class SymReal:
     def __pos__(self): return self
 
     def __pow__(self, o):
+        if isinstance(o, float) and o == builtins.int(o):
+            o = builtins.int(o)
         if isinstance(o, builtins.int) and 0 <= o <= 8:
             r = 1
             for _ in range(o):
@@ -1429,6 +1431,19 @@ class NPShim:
                 return (len(d),) + shp(d[0]) if isinstance(d, (list, tuple)) else ()
             return SymArray(flat, shp(data), name="array", dtype=self._dt(dtype) if dtype is not None else INT64)
         return self._np.array(data, dtype) if dtype is not None else self._np.array(data)
+
+    def _uf(self, name, x):
+        if isinstance(x, (SymReal, SymInt)):
+            f = z3.Function(name, _REAL, _REAL)
+            a = x.e if isinstance(x, SymReal) else z3.ToReal(x.e)
+            return SymReal(f(a))
+        return getattr(self._np, name)(x)
+
+    def arctan(self, x): return self._uf("arctan", x)
+    def exp(self, x): return self._uf("exp", x)
+    def tanh(self, x): return self._uf("tanh", x)
+    def sin(self, x): return self._uf("sin", x)
+    def cos(self, x): return self._uf("cos", x)
 
     def multiply(self, a, b, out=None):
         va, vb = a.cells_list(), b.cells_list()
